@@ -9,7 +9,8 @@
 
   `NoByteEsc` is a syntactic condition on the input that excludes the exceptions recorded in
   `Utf8InputLoop` (byte escapes `\xHH`, `\ooo`, and the escaped blank); that SOME condition is
-  needed is shown by `noByteEsc_needed_hex`, `noByteEsc_needed_octal`, `noByteEsc_needed_blank`
+  needed is shown by `noByteEsc_needed_hex`, `noByteEsc_needed_octal` (the blank: repaired,
+  `escaped_blank_inside_sequence_rejected_whole`, and the `_num` theorems need `NoNumEsc` only)
   (whole inputs without `;` that are not UTF-8 and are accepted under the Emacs Lisp options).
 
   Route: the invariant `InAll.Inv s0 s` already says that what is left at `s` is a suffix of the
@@ -35,16 +36,21 @@ def TokH (cfg : Cfg) (s0 : St) : Prop :=
 theorem tokH_of_r6rs {cfg : Cfg} (hr6 : cfg.opts.string = .r6rs) (s0 : St) : TokH cfg s0 :=
   fun ht hpk hs => parseToken_vc ht hpk hs.mode hr6
 
-/-- every option set: the input at `s0` satisfies `NoByteEsc` (under the Emacs Lisp string
+/-- every option set: the input at `s0` satisfies `NoNumEsc` (under the Emacs Lisp string
     syntax) -/
-theorem tokH_of_noByteEsc {cfg : Cfg} {s0 : St}
-    (h : cfg.opts.string = .elisp → NoByteEsc s0.rd.rest) : TokH cfg s0 := by
+theorem tokH_of_noNumEsc {cfg : Cfg} {s0 : St}
+    (h : cfg.opts.string = .elisp → NoNumEsc s0.rd.rest) : TokH cfg s0 := by
   intro fuel pk s s' tok ht hpk hs
-  refine parseToken_vc_all ht hpk hs.mode (fun hel w hw => ?_)
+  refine parseToken_vc_all_num ht hpk hs.mode (fun hel w hw => ?_)
   obtain ⟨_, p, _, hp⟩ := hs.vc
   have hnb := h hel
   rw [hp, hw] at hnb
   exact hnb.suffix.prefix
+
+/-- the statement with `NoByteEsc`, a corollary of `tokH_of_noNumEsc` -/
+theorem tokH_of_noByteEsc {cfg : Cfg} {s0 : St}
+    (h : cfg.opts.string = .elisp → NoByteEsc s0.rd.rest) : TokH cfg s0 :=
+  tokH_of_noNumEsc (fun hel => (h hel).toNum)
 
 /-! ### the three readers, over `TokH` -/
 
@@ -213,22 +219,31 @@ theorem valueInvG (cfg : Cfg) (s0 : St) (htokH : TokH cfg s0) : ∀ f, ValueInvA
 /-- **`next_value` consumes a valid chunk, every option set** (one call of `Parser::next_value` /
     one item of the value iterator), from any state of a slice or stream reader whose remaining
     trivia are well-formed and — Emacs Lisp string syntax — whose remaining input satisfies
-    `NoByteEsc`. -/
-theorem C17_next_value_input_valid_all {cfg : Cfg} {S S' : St} {v : Option Value}
+    `NoNumEsc`. -/
+theorem C17_next_value_input_valid_all_num {cfg : Cfg} {S S' : St} {v : Option Value}
     {w : List UInt8} (h : nextValueTop cfg S = .ok v S')
     (hm : S.rd.mode ≠ .str) (htv : TV S.rd.rest)
-    (hnb : cfg.opts.string = .elisp → NoByteEsc S.rd.rest)
+    (hnb : cfg.opts.string = .elisp → NoNumEsc S.rd.rest)
     (hw : S.rd.rest = w ++ S'.rd.rest) :
     Utf8.valid w = true := by
   unfold nextValueTop at h
   obtain ⟨f, s1, hf, h⟩ := bind_ok h
   rw [apiFuel_ok hf] at h
-  have := (valueInvG cfg S (tokH_of_noByteEsc hnb) f).1 h ⟨VC.refl S, htv, hm⟩
+  have := (valueInvG cfg S (tokH_of_noNumEsc hnb) f).1 h ⟨VC.refl S, htv, hm⟩
   exact this.vc.valid_of hw
 
-theorem fromTrait_inv_all {cfg : Cfg} {s s' : St} {v : Value}
+/-- the statement with `NoByteEsc`, a corollary of `C17_next_value_input_valid_all_num` -/
+theorem C17_next_value_input_valid_all {cfg : Cfg} {S S' : St} {v : Option Value}
+    {w : List UInt8} (h : nextValueTop cfg S = .ok v S')
+    (hm : S.rd.mode ≠ .str) (htv : TV S.rd.rest)
+    (hnb : cfg.opts.string = .elisp → NoByteEsc S.rd.rest)
+    (hw : S.rd.rest = w ++ S'.rd.rest) :
+    Utf8.valid w = true :=
+  C17_next_value_input_valid_all_num h hm htv (fun hel => (hnb hel).toNum) hw
+
+theorem fromTrait_inv_all_num {cfg : Cfg} {s s' : St} {v : Value}
     (h : fromTrait cfg s = .ok v s') (hm : s.rd.mode ≠ .str) (htv : TV s.rd.rest)
-    (hnb : cfg.opts.string = .elisp → NoByteEsc s.rd.rest) :
+    (hnb : cfg.opts.string = .elisp → NoNumEsc s.rd.rest) :
     Inv s s' ∧ s'.rd.rest = [] := by
   unfold fromTrait at h
   obtain ⟨x, s1, he, h⟩ := bind_ok h
@@ -239,52 +254,89 @@ theorem fromTrait_inv_all {cfg : Cfg} {s s' : St} {v : Value}
   unfold nextValueTop at hn
   obtain ⟨f, s4, hf, hn⟩ := bind_ok hn
   rw [apiFuel_ok hf] at hn
-  have hs3 := (valueInvG cfg s (tokH_of_noByteEsc hnb) f).1 hn ⟨VC.refl s, htv, hm⟩
+  have hs3 := (valueInvG cfg s (tokH_of_noNumEsc hnb) f).1 hn ⟨VC.refl s, htv, hm⟩
   cases ov with
   | none => simp [peekErr] at he
   | some x' =>
     obtain ⟨_, rfl⟩ := pure_ok he
     exact expectEnd_inv hend hs3
 
+/-- the statement with `NoByteEsc`, a corollary of `fromTrait_inv_all_num` -/
+theorem fromTrait_inv_all {cfg : Cfg} {s s' : St} {v : Value}
+    (h : fromTrait cfg s = .ok v s') (hm : s.rd.mode ≠ .str) (htv : TV s.rd.rest)
+    (hnb : cfg.opts.string = .elisp → NoByteEsc s.rd.rest) :
+    Inv s s' ∧ s'.rd.rest = [] :=
+  fromTrait_inv_all_num h hm htv (fun hel => (hnb hel).toNum)
+
 /-- **C17, input clause, whole inputs, EVERY option set**: if `from_slice` / `from_reader`
     accepts `bytes`, the trivia of `bytes` are well-formed and — only needed under the Emacs Lisp
-    string syntax — no backslash of `bytes` is directly followed by a blank, `x` or an octal
+    string syntax — no backslash of `bytes` is directly followed by `x` or an octal
     digit, then `bytes` is valid UTF-8.  (`faulty`: whether the stream ends in a failing `read`;
     an accepted input never got there.) -/
+theorem C17_whole_input_valid_all_num {cfg : Cfg} {mode : Mode} {bytes : List UInt8} {faulty : Bool}
+    {v : Value} {S' : St} (h : fromTrait cfg (initSt mode bytes faulty) = .ok v S')
+    (hm : mode ≠ .str) (htv : TV bytes) (hnb : cfg.opts.string = .elisp → NoNumEsc bytes) :
+    Utf8.valid bytes = true := by
+  obtain ⟨hinv, hrest⟩ := fromTrait_inv_all_num h (by exact hm) (by exact htv) (by exact hnb)
+  exact hinv.vc.valid_of (w := bytes) (by rw [hrest]; simp [initSt])
+
+/-- the statement with `NoByteEsc`, a corollary of `C17_whole_input_valid_all_num` -/
 theorem C17_whole_input_valid_all {cfg : Cfg} {mode : Mode} {bytes : List UInt8} {faulty : Bool}
     {v : Value} {S' : St} (h : fromTrait cfg (initSt mode bytes faulty) = .ok v S')
     (hm : mode ≠ .str) (htv : TV bytes) (hnb : cfg.opts.string = .elisp → NoByteEsc bytes) :
-    Utf8.valid bytes = true := by
-  obtain ⟨hinv, hrest⟩ := fromTrait_inv_all h (by exact hm) (by exact htv) (by exact hnb)
-  exact hinv.vc.valid_of (w := bytes) (by rw [hrest]; simp [initSt])
+    Utf8.valid bytes = true :=
+  C17_whole_input_valid_all_num h hm htv (fun hel => (hnb hel).toNum)
 
 /-- **The rule of the differential oracle, every option set**: input that is not UTF-8, contains
-    no `;`, has no backslash directly followed by a blank, `x` or an octal digit, and is read to
+    no `;`, has no backslash directly followed by `x` or an octal digit, and is read to
     the end is never accepted (slice and stream sources). -/
+theorem C17_whole_input_valid_all_no_comment_num {cfg : Cfg} {mode : Mode} {bytes : List UInt8}
+    {faulty : Bool} {v : Value} {S' : St}
+    (h : fromTrait cfg (initSt mode bytes faulty) = .ok v S')
+    (hm : mode ≠ .str) (hno : ∀ b ∈ bytes, b ≠ 59) (hnb : NoNumEsc bytes) :
+    Utf8.valid bytes = true :=
+  C17_whole_input_valid_all_num h hm (TV.of_no59 hno) (fun _ => hnb)
+
+/-- the statement with `NoByteEsc`, a corollary of `C17_whole_input_valid_all_no_comment_num` -/
 theorem C17_whole_input_valid_all_no_comment {cfg : Cfg} {mode : Mode} {bytes : List UInt8}
     {faulty : Bool} {v : Value} {S' : St}
     (h : fromTrait cfg (initSt mode bytes faulty) = .ok v S')
     (hm : mode ≠ .str) (hno : ∀ b ∈ bytes, b ≠ 59) (hnb : NoByteEsc bytes) :
     Utf8.valid bytes = true :=
-  C17_whole_input_valid_all h hm (TV.of_no59 hno) (fun _ => hnb)
+  C17_whole_input_valid_all_no_comment_num h hm hno hnb.toNum
 
 /-- the contrapositive, as the oracle states it -/
-theorem C17_ill_formed_input_rejected_all {cfg : Cfg} {mode : Mode} {bytes : List UInt8}
-    {faulty : Bool} (hm : mode ≠ .str) (hno : ∀ b ∈ bytes, b ≠ 59) (hnb : NoByteEsc bytes)
+theorem C17_ill_formed_input_rejected_all_num {cfg : Cfg} {mode : Mode} {bytes : List UInt8}
+    {faulty : Bool} (hm : mode ≠ .str) (hno : ∀ b ∈ bytes, b ≠ 59) (hnb : NoNumEsc bytes)
     (hbad : Utf8.valid bytes = false) :
     ∀ v S', fromTrait cfg (initSt mode bytes faulty) ≠ .ok v S' := by
   intro v S' h
-  rw [C17_whole_input_valid_all_no_comment h hm hno hnb] at hbad
+  rw [C17_whole_input_valid_all_no_comment_num h hm hno hnb] at hbad
   cases hbad
 
-/-- for an accepted input that satisfies `NoByteEsc`: valid UTF-8 exactly when its trivia are
+/-- the statement with `NoByteEsc`, a corollary of `C17_ill_formed_input_rejected_all_num` -/
+theorem C17_ill_formed_input_rejected_all {cfg : Cfg} {mode : Mode} {bytes : List UInt8}
+    {faulty : Bool} (hm : mode ≠ .str) (hno : ∀ b ∈ bytes, b ≠ 59) (hnb : NoByteEsc bytes)
+    (hbad : Utf8.valid bytes = false) :
+    ∀ v S', fromTrait cfg (initSt mode bytes faulty) ≠ .ok v S' :=
+  C17_ill_formed_input_rejected_all_num hm hno hnb.toNum hbad
+
+/-- for an accepted input that satisfies `NoNumEsc`: valid UTF-8 exactly when its trivia are
     well-formed — ill-formed bytes can hide in comments and nowhere else -/
+theorem C17_whole_input_valid_all_iff_num {cfg : Cfg} {mode : Mode} {bytes : List UInt8}
+    {faulty : Bool} {v : Value} {S' : St}
+    (h : fromTrait cfg (initSt mode bytes faulty) = .ok v S')
+    (hm : mode ≠ .str) (hnb : cfg.opts.string = .elisp → NoNumEsc bytes) :
+    Utf8.valid bytes = true ↔ TV bytes :=
+  ⟨TV.of_valid, fun htv => C17_whole_input_valid_all_num h hm htv hnb⟩
+
+/-- the statement with `NoByteEsc`, a corollary of `C17_whole_input_valid_all_iff_num` -/
 theorem C17_whole_input_valid_all_iff {cfg : Cfg} {mode : Mode} {bytes : List UInt8}
     {faulty : Bool} {v : Value} {S' : St}
     (h : fromTrait cfg (initSt mode bytes faulty) = .ok v S')
     (hm : mode ≠ .str) (hnb : cfg.opts.string = .elisp → NoByteEsc bytes) :
     Utf8.valid bytes = true ↔ TV bytes :=
-  ⟨TV.of_valid, fun htv => C17_whole_input_valid_all h hm htv hnb⟩
+  C17_whole_input_valid_all_iff_num h hm (fun hel => (hnb hel).toNum)
 
 /-- the theorem of `Utf8InputAll` is the instance `string = .r6rs` -/
 example {cfg : Cfg} {mode : Mode} {bytes : List UInt8} {faulty : Bool}
@@ -332,13 +384,34 @@ theorem noByteEsc_needed_octal :
     not_noByteEsc_of (pre := [0x22, 0xC3]) (c := 0x32) (post := [0x35, 0x31, 0x22]) rfl
       (Or.inr (Or.inr (by decide)))⟩
 
-/-- **`NoByteEsc` is needed, the blank**: `"` C3 `\ ` A9 `"` is accepted as `é` -/
-theorem noByteEsc_needed_blank :
+/-- **The blank, after the repair**: `"` C3 `\ ` A9 `"` was accepted as `é`; it is now rejected by
+    both sources with `InvalidUnicodeCodePoint`, although it satisfies `NoNumEsc` — the exclusion
+    of the blank in `NoByteEsc` is no longer needed (`C17_whole_input_valid_all_num`). -/
+theorem escaped_blank_inside_sequence_rejected_whole :
     (∀ b ∈ wBlank, b ≠ (59 : UInt8)) ∧ Utf8.valid wBlank = false ∧
-    parsesTo cfgEl wBlank (.string [0xC3, 0xA9]) = true ∧ acceptsAll cfgEl .io wBlank = true ∧
-    ¬ NoByteEsc wBlank :=
-  ⟨by decide, by decide +kernel, by decide +kernel, by decide +kernel,
+    rejectsWith cfgEl wBlank .invalidUnicodeCodePoint = true ∧
+    acceptsAll cfgEl .slice wBlank = false ∧ acceptsAll cfgEl .io wBlank = false ∧
+    noNumEscB wBlank = true ∧ ¬ NoByteEsc wBlank :=
+  ⟨by decide, by decide +kernel, by decide +kernel, by decide +kernel, by decide +kernel,
+    by decide +kernel,
     not_noByteEsc_of (pre := [0x22, 0xC3]) (c := 0x20) (post := [0xA9, 0x22]) rfl (Or.inl rfl)⟩
+
+/-- an input with escaped blanks (behind a complete buffer, in front of a lead byte, of a
+    backslash and of the closing quote) meets the hypotheses of the `_num` theorems and not those
+    of the `NoByteEsc` ones: `("é\ é\ \n\ " a)` -/
+def exInputElBlank : List UInt8 :=
+  [0x28, 0x22, 0xC3, 0xA9, 0x5C, 0x20, 0xC3, 0xA9, 0x5C, 0x20, 0x5C, 0x6E, 0x5C, 0x20, 0x22, 0x20,
+   0x61, 0x29]
+
+theorem exInputElBlank_accepted :
+    acceptsAll cfgEl .slice exInputElBlank = true ∧ acceptsAll cfgEl .io exInputElBlank = true ∧
+    noNumEscB exInputElBlank = true ∧ noByteEscB exInputElBlank = false := by
+  decide +kernel
+
+example : Utf8.valid exInputElBlank = true := by
+  obtain ⟨v, S', h⟩ := acceptsAll_spec exInputElBlank_accepted.1
+  exact C17_whole_input_valid_all_no_comment_num h (by decide) (by decide)
+    (noNumEscB_spec exInputElBlank_accepted.2.2.1)
 
 /-- the third exception of `Utf8InputLoop` (a byte string whose text has a lead byte after a
     backslash: `"\` C3 `\x41"`) needs a numeric escape too, so `NoByteEsc` excludes it -/
